@@ -403,6 +403,8 @@ class Scenario:
             text = "cmp byte ptr [rip+%s+4], %d" % (name[8:], k & 0x7F)
         elif name.startswith("dq:"):
             text = ".quad %s+4\n.byte %d" % (name[3:], k & 0xFF)
+        elif name.startswith("cfiraw:"):
+            text = name[7:].replace(";", "\n")
         elif name.startswith("cfi:"):
             text = "mov eax, %d\n%s\nmov ebx, %d" % (k, name[4:].replace(";", "\n"), k)
         else:
